@@ -153,4 +153,10 @@ def expectedItems : Sums → List FItem → List (Option Item)
   | s, .tickSkip _ :: ms => expectedItems s ms
   | s, m :: ms => expectedItem s m :: expectedItems (s.step m) ms
 
+/-- The exact sums after a message list (up to its `FINISH`). -/
+def sumsAfter : Sums → List FItem → Sums
+  | s, [] => s
+  | s, .finish :: _ => s
+  | s, m :: ms => sumsAfter (s.step m) ms
+
 end Tw.Teehistorian.Spec
